@@ -195,6 +195,13 @@ class DescriptorTransaction(_TransactionBase):
         if key in updates_dict:
             msg = f'State {key} already in updated set!'
             raise ValueError(msg)
+        if state_container.is_context_state:
+            exists = key in self._mdib.context_states.handle
+        else:
+            exists = key in self._mdib.states.descriptor_handle
+        if exists:
+            msg = f'State {key} already exists in mdib!'
+            raise ValueError(msg)
 
         # set reference to descriptor
         state_container.descriptor_container = self.descriptor_updates[state_container.DescriptorHandle].new
@@ -713,6 +720,9 @@ class ContextStateTransaction(_TransactionBase):
         if not state_container.is_context_state:
             # prevent this for simplicity reasons
             raise ApiUsageError('Transaction only handles context states!')
+        if state_container.Handle in self._state_updates or state_container.Handle in self._mdib.context_states.handle:
+            msg = f'Context State {state_container.Handle} already exists!'
+            raise ValueError(msg)
 
         if state_container.descriptor_container is None:
             descr = self._mdib.descriptions.handle.get_one(state_container.DescriptorHandle)
